@@ -241,13 +241,19 @@ def run(ctx):
                     refused += 1
                     continue
                 raise
+            except (TypeError, AssertionError, IndexError, AttributeError) as e:   # an accepted configuration died
+                ctx.violation("C01|%s|%s|%s" % (CLASSES[(cfg["fam"], cfg["flavour"])], cfg["noise"], type(e).__name__),
+                              "constructing the predictor raised %s: %s" % (type(e).__name__, str(e)[:200]), dict(cfg))
+                continue
             p = b["p"]
             w_impl = col2(np.asarray(p.weights, dtype=float))
             Xq = b["Xq"]
             if cfg["flavour"] == "exp":
                 pred_impl = np.asarray(p(Xq, logscale=True), dtype=float)
                 pos = np.asarray(p(Xq), dtype=float)
-                if not (np.all(pos > 0) and np.allclose(pos, np.exp(pred_impl), rtol=64 * U, atol=0)):
+                with np.errstate(all="ignore"):
+                    expd = np.exp(pred_impl)
+                if not np.isnan(pred_impl).any() and not (np.all(pos > 0) and np.allclose(pos, expd, rtol=64 * U, atol=0)):
                     ctx.violation("C01|exp|%s" % cfg["fam"], "ExpPredictor value is not exp of its log-scale output",
                                   replay_of(cfg, b, {"pos": pos.tolist(), "log": pred_impl.tolist()}))
             elif cfg["flavour"] == "time" and cfg["id"] % 2 == 0:
